@@ -29,6 +29,8 @@ def plan(tier, seed):
     for x in XS:
         shards.append(dict(no=no, x=x, part="lengths", idx=0)); no += 1
         shards.append(dict(no=no, x=x, part="grid", idx=0)); no += 1
+        for i in range(1 if q else 8):
+            shards.append(dict(no=no, x=x, part="sweep", idx=i)); no += 1
         shards.append(dict(no=no, x=x, part="h2f", idx=0)); no += 1
         for i in range(3 if q else 200):
             shards.append(dict(no=no, x=x, part="random", idx=i)); no += 1
@@ -65,6 +67,21 @@ def run_shard(shard, tier, seed, wd, res):
         for n in lens:
             s.op("expand", V.s(x), V.b(msg), V.b(dst), V.n(n))
             s.op("expand", V.s(x), V.b(rb(rng, rng.choice(MSG_LENS))), V.b(rb(rng, rng.choice(DST_LENS))), V.n(n))
+    elif part == "sweep":
+        # dense sweep of the message length (every value up to 1100 bytes, then around every power of two up to 2^15,
+        # minus the tag length) with a fixed tag, and of the tag length (0..255) with two message lengths: a behaviour
+        # that depends on ONE particular total size (a staging buffer that is exactly full, ...) shows here
+        dst = rb(rng, rng.choice([0, 1, 16, 50]))
+        lens_m = set(range(0, 1101))
+        for e in range(11, 16):
+            for d in range(-6, 4):
+                lens_m.add(max(0, (1 << e) - len(dst) + d))
+        for ml in sorted(lens_m):
+            s.op("expand", V.s(x), V.b(rb(rng, ml)), V.b(dst), V.n(rng.choice([32, 64, 33])))
+        for dl in range(0, 256):
+            # message lengths that bring message + tag to within 8 bytes below 512, 1024, 2048, 4096
+            for ml in (rng.randrange(0, 40), (512, 1024, 2048, 4096)[dl % 4] - dl - (dl // 4) % 9):
+                s.op("expand", V.s(x), V.b(rb(rng, max(0, ml))), V.b(rb(rng, dl)), V.n(32))
     elif part == "grid":
         for ml in MSG_LENS + ([10240] if True else []):
             for dl in DST_LENS:
